@@ -222,10 +222,13 @@ CLAIMED = {
                   "table tie + differential correspondence against Python's eval",
         ref="6 C12"),
     "C13": dict(
-        text="Lean 4 model of Treatment / Sum / CategoricalBox / C,T,S with 31 theorems for every number "
+        text="Lean 4 model of Treatment / Sum / CategoricalBox / C,T,S with 39 theorems for every number "
              "of levels and every reference / omitted level: shapes, reference row zero, zero-sum columns, "
              "explicit two-sided inverses of [1|T] and [1|S] (full rank with the constant), spanning of all "
-             "indicators, labels name the columns, levels= fixes the order, aliases; registry and default "
+             "indicators, labels name the columns, levels= fixes the order, aliases; the compact coding "
+             "functions of the evaluation model (used by C04-C06, C08, C10, C15-C17) are proved equal to "
+             "this model (Bridge.coding_models_agree: same matrix, labels and refusals), so the results "
+             "hold for the matrices the whole-design model computes with; registry and default "
              "arguments extracted from the live modules and tied by `decide`. Exhaustive differential run "
              "for n <= 12 and every reference, all permutations of <= 5 levels, alias groups; the spec "
              "predicates are evaluated by the driver on the implementation's matrices; the interchange "
